@@ -60,6 +60,9 @@ def run(ctx):
     shared.r_ident(ctx, "R08.ident", (_rm2.get(model).open_op,),
                    "the mailbox that is opened / closed is not the one the client named")
     shared.r_wire(ctx, "R08.wire")
+    shared.r_present(ctx, "R08.present", ("open", "close"),
+                     "a close naming \"\" is refused (or closes another mailbox) and the "
+                     "side it names stays open")
     from .. import roles as _rolesmod
     shared.r_callers(ctx, "R08.callers", _rolesmod.get(model).close_op, ("close",),
                      "a side is marked closed (and the mailbox possibly deleted) although "
@@ -87,7 +90,10 @@ def run(ctx):
     for p in paths:
         upd = None
         sel_after = {}
+        seen_loops = []
         for e, loops in all_events(p):
+            if e["k"] == "loop" and not loops:
+                seen_loops.append(e)
             if e["k"] != "sql" or e["db"] != "chan" or R.close_op not in e["stack"]:
                 continue
             st = e["stmt"]
@@ -116,7 +122,7 @@ def run(ctx):
                             not is_own_mailbox_id(eq["mailbox_id"]) or \
                             not sel["stmt"].plain_rows:
                         continue
-                    found, ok, text = guards.guard_verdict(e["pc"][len(sel["pc"]):], rows, "opened")
+                    found, ok, text = guards.guard_verdict(e["pc"][len(sel["pc"]):], rows, "opened", seen_loops)
                     if found:
                         verdict = (ok, text)
                 if verdict is None:
